@@ -322,8 +322,10 @@ def ob_backend_init_downsize():
 
 class ZTerm:
     """ghost Z3 term: semantic flags valid/unsat (z3 Bools) and whether it IS the literal true/false"""
-    def __init__(self, valid, unsat, lit=None):
+    def __init__(self, valid, unsat, lit=None, address=0x7F00):
         self.valid, self.unsat, self.lit = valid, unsat, lit
+        # the term's address (BackendZ3._z3_ast_hash): unique among LIVE terms only - once a term is dead a new term may get its address
+        self.ast = type("Ast", (), {"value": address})()
 
     def eq(self, o):
         # structural identity of terms
@@ -388,6 +390,11 @@ def ob_z3_truth(which):
             f = BZ.__dict__["_" + which]
             f = getattr(f, "__wrapped__", f)
             try:
+                if c.choose([True, True], "an-earlier-term-lived-at-this-address") == 1:
+                    # history: another term, dead by now, was asked about at the address that `te` occupies (Z3 reuses freed addresses);
+                    # the answer for `te` must not come from what was learnt about that term
+                    e0 = E("earlier")
+                    f(b, ZTerm(e0.valid, e0.unsat), extra_constraints=(), solver=None)
                 r = f(b, te, extra_constraints=(), solver=solver)
             except (PathEnd, Undecided):
                 raise
